@@ -153,6 +153,7 @@ from spec.keys import valid_key, key_base
 import contracts.key_helpers  # noqa: F401
 requires(c, "valid_key", lambda key: And(valid_key(key), Or(*[Eq(key_base(key), b) for b in
                                                               ("RekeyTo", "CloseRemainderTo", "AssetCloseTo", "Sender")])))
+c.axiom_sets = {"addr"}
 ensures(c, "wf", lambda result: And(wf_addr(result[0]), wf_addr(result[1])))
 def _d19_sv(ins_stack_value):
     a0, a1 = _arg(ins_stack_value, 0), _arg(ins_stack_value, 1)
